@@ -119,7 +119,7 @@ def cases():
         if m.nboxes() == [3]:
             for lay in families.all_layouts(3, 2 if tier == 'quick' else 3):
                 out.append({'label': '%s/layout%s' % (m.name, lay), 'mesh': m, 'fields': fsets[1], 'layout': [lay], 'geom': 1})
-    for r in range(6 if tier == 'quick' else 40):
+    for r in range(6 if tier == 'quick' else 120):
         nd = rnd.choice([2, 3])
         m = families.random_mesh(rnd, nd, max_levels=2 if tier == 'quick' else 3, max_boxes=4, max_extent=4)
         m.name = 'rand%d-%dd' % (r, nd)
